@@ -371,10 +371,12 @@ def run(chk):
         f_leaves = ex.submit(enumerate_terms, chk, "GEN_leaves_full", workers=2, profile="full", leaf="full", d=0, kids=0, sib=0, nodes=1)
         f_d1 = ex.submit(enumerate_terms, chk, "GEN_depth1_tiny", workers=2, profile="tiny", leaf="tiny", d=1, kids=2, sib=0, nodes=8)
         f_scroll = ex.submit(enumerate_terms, chk, "GEN_scroll_depth2", workers=2, profile="rep", leaf="tiny", d=2, kids=1, sib=0, nodes=4, kinds="scroll")
+        f_prog = ex.submit(enumerate_terms, chk, "GEN_progress_leaves", workers=2, profile="tiny", leaf="progress", d=0, kids=0, sib=0, nodes=1)
         f_wt = ex.submit(enumerate_terms, chk, "GEN_weights_depth1", workers=2, profile="wt", leaf="wt", d=1, kids=2, sib=0, nodes=8, kinds="wt")
         f_over = ex.submit(overclaim)
         leaves, d1, over = f_leaves.result(), f_d1.result() + f_scroll.result(), f_over.result()
         wt_all = [t for t in f_wt.result() if t["c"]]
+        prog_run = f_prog.result()
         pad_run = [t for t in f_pad.result() if t["c"]]       # small and cheap (rendered as fixed widgets only): never sampled
         if f_sims is not None:
             f_sims.result()
@@ -427,6 +429,10 @@ def run(chk):
         jobs += [(t, ENCS[i % 3], grid[0], grid[1]) for i, t in enumerate(fam)]
     # the padding family is about the size a Padding derives from its child: the empty grid leaves the fixed rendering (thorough: every encoding,
     # the widths of the non-ASCII texts differ between them; and as a flow widget at two widths)
+    # the progress family is about where the percentage falls in the width: every width up to 16 (the smoothing glyph exists in UTF-8 only;
+    # the other encodings take the plain path - quick: one of them per term, thorough: both)
+    prog_grid = (list(range(1, 17)), [])
+    jobs += [(t, enc, prog_grid[0], prog_grid[1]) for i, t in enumerate(prog_run) for enc in (["utf8", ENCS[1 + i % 2]] if quick else ENCS)]
     pad_grid = ([], []) if quick else ([3, 8], [])
     jobs += [(t, enc, pad_grid[0], pad_grid[1]) for i, t in enumerate(pad_run) for enc in ([ENCS[i % 3]] if quick else ENCS)]
     traces = observe_all(jobs, 4 if quick else 8)
@@ -441,7 +447,7 @@ def run(chk):
     traces += [tr for tr in htraces if tr["build_exc"] or tr["ev"]]
     jobs += [j for tr, j in zip(htraces, hjobs) if tr["build_exc"] or tr["ev"]]
     fam_of = {}
-    for name, fam in (("weights", wt_run), ("shards", shards_run), ("padding", pad_run)):
+    for name, fam in (("weights", wt_run), ("shards", shards_run), ("padding", pad_run), ("progress", prog_run)):
         for t in fam:
             fam_of[json.dumps(t, sort_keys=True)] = name
     for tr in traces:
@@ -488,6 +494,18 @@ def _coverage(chk, built, terms):
         pile_w0 = any(x["k"] == "Pile" and any(op[0] == "weight" and op[1] == 0 for op in x["o"][1]) for x in subs)
         col_desc = any(x["k"] == "Columns" and _heavier_first(x["o"][3]) for x in subs)
         col_opts = any(x["k"] == "Columns" and len(x["c"]) > 1 and (x["o"][0] != 1 or x["o"][1] > 1) for x in subs)
+        if fam == "progress" and tr["enc"] == "utf8" and tr["term"]["o"][1]:
+            # coverage only: where the partial-block glyph falls in the row (ProgressBar.render: ccol = completed columns, cs = eighths of the next)
+            cur = tr["term"]["o"][0]
+            for e in tr["ev"]:
+                if e["t"] == "render" and e["mode"] == "flow" and not e["exc"]:
+                    c = e["c"]
+                    ccol, cs = (cur * c) // 100, (cur * c * 8 // 100) % 8
+                    if cs and ccol < c:
+                        bump("family.progress.glyph_rows")
+                        for nm, at in (("first", 0), ("last", c - 1), ("second_to_last", c - 2)):
+                            if ccol == at and c >= 3:
+                                bump("family.progress.glyph_in_" + nm + "_column")
         if fam == "padding" and tr["term"]["k"] == "Padding" and tr["term"]["o"][1].startswith("rel"):
             # coverage only: the pairs (child width, percentage) whose quotient falls exactly between two columns
             pct = int(tr["term"]["o"][1][3:])
@@ -563,7 +581,8 @@ def _coverage(chk, built, terms):
                        "rows() / pack() asked before the rendering, after it and after _invalidate(); non-trivial = distinct "
                        "(composite term, encoding, mode, size, focus) events")
     chk.cov["exhaustive"] = True
-    for need in ("family.weights.traces", "family.shards.traces", "family.padding.traces", "family.padding.fixed_renderings", "family.padding.quotient_exactly_half.above_even",
+    for need in ("family.progress.traces", "family.progress.glyph_in_first_column", "family.progress.glyph_in_last_column", "family.progress.glyph_in_second_to_last_column",
+                 "family.weights.traces", "family.shards.traces", "family.padding.traces", "family.padding.fixed_renderings", "family.padding.quotient_exactly_half.above_even",
                  "family.padding.quotient_exactly_half.above_odd", "family.padding.quotient_exactly_half.decides_the_width", "family.shards.cut_spanning_view_and_canvas_below", "canvas_with_view_spanning_shards",
                  "canvas_with_cut_spanning_view_and_canvas_below", "pile_zero_weight_item_as_flow_widget", "columns_heavier_before_lighter_at_narrow_width",
                  "columns_min_width_or_dividechars_at_narrow_width", "calc_again.after", "calc_again.inval", "frame_with_header_and_footer",
